@@ -476,6 +476,92 @@ def commented_dict_value_check():
     return bad
 
 
+class UserId(int):
+    """a user subclass of a scalar with a printer of its own"""
+
+
+class Tag(str):
+    pass
+
+
+class Multi:
+    """an object whose repr spans several lines (the fallback must show it verbatim, wherever the value sits)"""
+    def __init__(self, n):
+        self.n = n
+
+    def __repr__(self):
+        return 'Multi(\n  n=%d,\n)' % self.n
+
+
+_scalar_plan = {'mode': None}
+
+
+def _scalar_printer(tag):
+    def printer(value, ctx):
+        m = _scalar_plan['mode']
+        if m is None:
+            return '%s<%s>' % (tag, value.n if isinstance(value, Multi) else str.__str__(value) if isinstance(value, str) else int(value))
+        if m == 'repr':
+            return repr(value)
+        raise m('injected')
+    printer.__name__ = printer.__qualname__ = 'printer_' + tag
+    return printer
+
+
+pp.register_pretty(UserId)(_scalar_printer('UserId'))
+pp.register_pretty(Tag)(_scalar_printer('Tag'))
+pp.register_pretty(Multi)(_scalar_printer('Multi'))
+
+
+def scalar_and_multiline_fault_check():
+    """failing printers of user subclasses of scalars (int, str) and of a value whose repr has several lines, at the top, inside
+    containers and at an indentation > 0: pformat returns, the text equals the one where the printer *returns* repr(value), exactly
+    one warning names the printer, a later call is fault-free"""
+    bad = []
+    leaves = [('UserId', lambda: UserId(7)), ('Tag', lambda: Tag('t')), ('Multi', lambda: Multi(3))]
+    shapes = [lambda x: x, lambda x: [x, 1], lambda x: {'k': x}, lambda x: [0, [1, {'key': [x, 'word ' * 3]}]], lambda x: (x,)]
+    for name, mk in leaves:
+        for si, shape in enumerate(shapes):
+            for width in (200, 12):
+                for exc in (KeyError, TypeError, ValueError):
+                    v = shape(mk())
+                    _scalar_plan['mode'] = 'repr'
+                    with warnings.catch_warnings():
+                        warnings.simplefilter('ignore')
+                        want = pp.pformat(v, width=width)
+                    _scalar_plan['mode'] = exc
+                    with warnings.catch_warnings(record=True) as w:
+                        warnings.simplefilter('always')
+                        try:
+                            got = pp.pformat(v, width=width)
+                        except Exception as e:
+                            got = 'EXC:' + type(e).__name__
+                    _scalar_plan['mode'] = None
+                    named = [str(x.message) for x in w if 'raised an exception' in str(x.message)]
+                    try:
+                        later = pp.pformat(v, width=width)
+                    except Exception as e:
+                        later = 'EXC:' + type(e).__name__
+                    why = None
+                    if got.startswith('EXC:'):
+                        why = 'pformat raised %s' % got[4:]
+                    elif got != want:
+                        why = 'text %r differs from the text with repr(value) in place of the value %r' % (got[:200], want[:200])
+                    elif len(named) != 1 or ('printer_' + name) not in named[0]:
+                        why = 'warnings %r, expected exactly one naming printer_%s' % ([m[:80] for m in named], name)
+                    elif later.startswith('EXC:') or ('%s<' % name) not in later:
+                        why = 'a later fault-free call gives %r' % later[:200]
+                    if why:
+                        bad.append({'kind': 'failure-not-contained', 'why': why, 'value': '%s in shape %d' % (name, si), 'width': width, 'exception': exc.__name__})
+                        break
+                else:
+                    continue
+                break
+            if len(bad) >= 3:
+                return bad
+    return bad
+
+
 def reentrant_repr_check():
     """a printer fails once on a value whose __repr__ is pretty_repr: the fallback repr prints the value through the (now healthy)
     printer, so the text is the fault-free text, with one warning naming the printer; later calls are unaffected"""
@@ -733,6 +819,7 @@ def failures_section(tier, seed):
             fails.extend(ff)
     fails.extend(reentrant_repr_check())
     fails.extend(commented_dict_value_check())
+    fails.extend(scalar_and_multiline_fault_check())
     stats = {'evaluations': tot, 'distinct_nontrivial': nt, 'trees': len(trees), 'mismatches': len(mism), 'exhaustive': True,
              'reentrant_repr_checked': True,
              'samples': [{'tree': cases[7][0], 'fault': sorted(cases[7][1].items())}],
